@@ -9,6 +9,12 @@ CLAIMED = {
    text="Bounded model checking: _line_dist through all its entry points is executed symbolically from the current .pyx; for every 0/1 matrix up to the bound (and every missing-value mask) z3 shows the histograms equal an independent run-length specification, the accounting identities hold, the sequential kernels equal the matrix kernels on the thresholded supremum-distance matrix (exact reals) and an IEEE-754 query over the declared C types decides whether the float comparison can differ from the matrix mode's double comparison.",
    note="Bounds: n<=4 arbitrary / n<=5 (6 thorough) symmetric matrices, sequential n<=4 (5), dim<=2. Exact real arithmetic except the IEEE lemma; translator validated against the compiled extension each run; trusted: z3, Cython parser. Outside: resampling, entropy values, larger matrices.",
    ref="DESIGN.md §3 C08"),
+ "C14": dict(
+   engine="K",
+   technique="bounded symbolic execution of the Cython visibility kernels (parse-tree interpreter with feasibility-pruned control splitting) + z3 LRA/NRA over exact rationals with a NaN flag; sat models replayed through VisibilityGraph",
+   text="Bounded model checking: the three visibility kernels and the retarded/advanced clustering kernels are executed symbolically from the current .pyx. For every real-valued series (and every NaN pattern for the missing-value kernel) up to the bound z3 shows that the adjacency equals the geometric criterion written independently, is symmetric with empty diagonal, is mirrored by time reversal and unchanged by positive affine maps; the clustering kernels equal their triangle-count definitions for every graph up to the bound.",
+   note="Bounds: n<=6 (8 thorough) samples with integer timings, n<=4 (5) with symbolic increasing timings, graphs n<=5 (6). Exact rational arithmetic as the statement prescribes; float32 slope rounding outside. Translator validated against the compiled extension each run.",
+   ref="DESIGN.md §3 C14"),
 }
 NA_DEFAULT = "check not built yet in this round (see DESIGN.md §6 for the planned obligation)"
 def main():
